@@ -304,7 +304,7 @@ def check_C19(c):
             continue
         if g.triples and all(isinstance(x, str) for t in g.triples for x in t):
             lists.append([list(t) for t in g.triples])
-    syms = ['a', 'b', 'x1', 'bark-01', '-', '+', '1', '0.5', 'é', 'a.b', 'a/b'[:1], 'Z_9', '_', '^x', 'p^q']
+    syms = ['a', 'b', 'x1', 'bark-01', '-', '+', '1', '0.5', 'é', 'a.b', 'a/b'[:1], 'Z_9', '_', '^x', 'p^q', 'None', 'null', 'True', '1e5', '007']
     strs = ['"q"', '"x y"', '"a,b"', '"(p)"', '"^"', '"a ^ b(c, d)"', '""', '"\\"esc\\""', '", "', '"#"', '"1"']
     # strings whose content ends in an escaped backslash or mixes escaped backslashes and quotes (several per line when indent=False)
     strs += ['"C:\\\\data\\\\"', '"\\\\"', '"a\\\\\\"b"', '"\\\\\\""', '"x\\\\"']
